@@ -5,3 +5,8 @@ Require Import Base Suggestion Ignore.
 Extraction Language OCaml.
 Extraction "../ocaml/gen/c14_model.ml" run_context_indices run_same_context context
   run_export run_import import_into render_num ctx_eqb ignore_lint is_ignored remove_ignored ig_append.
+(* phase 3: LintContext::from_lint over the MODELLED Document::new_plain_english (C02's Lexer.v / Condense.v + the
+   embedding of Model/C14Edit.v).  A second, self-contained file: the driver wraps it in a module `E` (the two token
+   vocabularies share constructor names). *)
+Require Tables_lexer Lexer Condense C14Edit.
+Extraction "../ocaml/gen/c14e_model.ml" C14Edit.run_plain_ascii.
